@@ -472,7 +472,7 @@ func (u *Unit) store(s *State, a Addr, v Term) {
 func (u *Unit) typeFacts(s *State, v Term, t types.Type) {
 	switch tt := t.Underlying().(type) {
 	case *types.Slice:
-		s.assume(fmt.Sprintf("(wfSlice %s)", v.S))
+		s.assume(fmt.Sprintf("(and (wfSlice %s) (<= (sl_arr %s) allocbase))", v.S, v.S))
 	case *types.Basic:
 		if tt.Info()&types.IsUnsigned != 0 {
 			hi := ""
